@@ -33,6 +33,43 @@ func init() {
 		r := ion.NewReaderCat(src, ion.NewCatalog(sts...))
 		return strings.Join(traverse(r, 4*len(src.data)+17), " ")
 	})
+	// catsys <ioerr> x<bytes> <desc>*: the same input through ion.System{Catalog}: NewReaderBytes (full traversal),
+	// Unmarshal into an interface{} and into a struct, UnmarshalString; answers "ok"/"err" per API (a panic is "panic")
+	register("catsys", func(a []string) string {
+		src, rest, ok := newSrc(a)
+		if !ok {
+			return "badinput"
+		}
+		c := &stCur{a: rest}
+		sts := c.shareds()
+		if !c.done() {
+			return "badinput"
+		}
+		sys := ion.System{Catalog: ion.NewCatalog(sts...)}
+		out := []string{}
+		tr := traverse(sys.NewReaderBytes(src.data), 4*len(src.data)+17)
+		out = append(out, "trav:"+tr[len(tr)-1])
+		tr2 := traverse(sys.NewReaderString(string(src.data)), 4*len(src.data)+17)
+		out = append(out, "travs:"+tr2[len(tr2)-1])
+		tr3 := traverse(sys.NewReader(src), 4*len(src.data)+17)
+		out = append(out, "travr:"+tr3[len(tr3)-1])
+		var v interface{}
+		if err := sys.Unmarshal(src.data, &v); err != nil {
+			out = append(out, "unm:err")
+		} else {
+			out = append(out, "unm:ok")
+		}
+		var st struct {
+			A interface{} `ion:"a"`
+			B *ion.SymbolToken
+		}
+		if err := sys.UnmarshalString(string(src.data), &st); err != nil {
+			out = append(out, "unms:err")
+		} else {
+			out = append(out, "unms:ok")
+		}
+		return strings.Join(out, " ")
+	})
 	// bwsh <budget|-> <desc>* -- <calls...>
 	register("bwsh", func(a []string) string {
 		if len(a) < 1 {
